@@ -1,12 +1,12 @@
 """C06 - named inputs are each read once, decoded faithfully, and failures are reported."""
 import json
 import os
-from vf import Inconclusive, parallel, require_clean, validate_traces, vfj_lines, b2s
+from vf import Inconclusive, parallel, require_clean, tlaps, validate_traces, vfj_lines, b2s
 
 CLAIM = {
-    "text": "Inputs.tla specifies one invocation over a file-system tree: expansion of every argument into mentions (path, glob with literal fallback, -R walk of regular files, '-'/none = <stdin>), the result of opening/reading each mention (plain, gzip under -z with fallback to byte 0, corrupt/truncated gzip, directory-as-file, missing) independently of its transport (regular file; FIFO, /dev/stdin, process substitution: cannot be rewound, report size 0), the output rows, the read-error count, the exit status with its precedence, and the resource bound: never more than --readers inputs open, whatever the number of mentions and the descriptor limit. TLC (a) decides relational laws of that specification over the whole bounded universe (per-argument additivity, walk completeness, nothing dropped, read-once multiplicity, fault isolation, -z transparency, decoding, transport transparency, independence of the descriptor limit, exit precedence), (b) explores every interleaving of the implementation-shaped reader life cycle InputsLife (expansion goroutine, semaphore dispatcher, open taking a descriptor / probe by gzip.NewReader resp. by peeking through a recorder on a pipe / rewind resp. replay / read / error / close / release) for every scenario and shows semaphore bound, descriptor bound open <= readers <= MaxFd (hence no readable input fails to open), no leak, termination and that the final deliveries/error count/exit status are exactly those of Inputs - and refutes five deliberately broken designs (slot leak on open error, open before the slot, probe of a pipe without recorder, with Seek, skipped for reported size 0), (c) enumerates every scenario with its demanded outcome, which the harness materialises on disk (FIFOs with driver-side writers, inherited pipes/files for /dev/stdin and /dev/fd/3) and runs through the REAL rare binary (filter and histogram --csv) and the batcher library, comparing rows, exit status, final message, reported errors, summary, ReadErrors() and - while a FIFO input holds its reader slot - the number of inputs the process has open (/proc/<pid>/fd); all observations, seeded random larger trees, and runs with MORE inputs than a lowered RLIMIT_NOFILE whose reader slots are all held by FIFOs, are validated record by record by TLC (Inputs_Trace). Gzip inputs are also MULTI-MEMBER files (cat a.gz b.gz, gzip -c >>: 2-4 members, empty members, lines spanning members; the life cycle decodes member after member, a decompressor that stops after the first member is refuted). The -R walk is also written like filepath.Walk + callback over trees that hold non-regular entries (FIFO, socket, symbolic link to a file / a directory / nothing, device node) before, between and after the regular files and sub-directories: every regular file below the directory is mentioned exactly once whatever the callback does with such entries (law LWalkImpl; a callback answering SkipDir for them is refuted); what the entry itself yields is not judged (rows under its name ignored, at most one read error each, the allowed ends of the run computed by the specification). Inputs larger than any read buffer or probe window have SYMBOLIC contents (InputsBig: optional first line, n fixed-width numbered records, unterminated tail; laws tie the symbolic lines to LinesOf of the bytes and show that a line end falls on / one byte next to every multiple of every window size the record width divides); TLC enumerates a corpus over several powers of two (16 KiB ... 256 KiB, 4 KiB, 32 KiB; files of 2 windows +- records, shifted by 1, w-1, 7 bytes; plain, plain under -z, gzip, multi-member gzip cut next to the window, FIFO, standard input, three inputs at once) with the demanded run-length observation, replayed on the real binary and the batcher library (lines looked at only after the input ended) and validated by InputsBig_Trace. InputsBuf (the byte-level scanner + reader loop + batch channel + worker + consumer of PipelineBuf) shows for every chunking and buffer size within the bounds that the consumer sees exactly LinesOf(input); recycling a full, completely consumed buffer in place is refuted.",
+    "text": "Inputs.tla specifies one invocation over a file-system tree: expansion of every argument into mentions (path, glob with literal fallback, -R walk of regular files, '-'/none = <stdin>), the result of opening/reading each mention (plain, gzip under -z with fallback to byte 0, corrupt/truncated gzip, directory-as-file, missing) independently of its transport (regular file; FIFO, /dev/stdin, process substitution: cannot be rewound, report size 0), the output rows, the read-error count, the exit status with its precedence, and the resource bound: never more than --readers inputs open, whatever the number of mentions and the descriptor limit. TLC (a) decides relational laws of that specification over the whole bounded universe (per-argument additivity, walk completeness, nothing dropped, read-once multiplicity, fault isolation, -z transparency, decoding, transport transparency, independence of the descriptor limit, exit precedence), (b) explores every interleaving of the implementation-shaped reader life cycle InputsLife (expansion goroutine, semaphore dispatcher, open taking a descriptor / probe by gzip.NewReader resp. by peeking through a recorder on a pipe / rewind resp. replay / read / error / close / release) for every scenario and shows semaphore bound, descriptor bound open <= readers <= MaxFd (hence no readable input fails to open), no leak, termination and that the final deliveries/error count/exit status are exactly those of Inputs - and refutes five deliberately broken designs (slot leak on open error, open before the slot, probe of a pipe without recorder, with Seek, skipped for reported size 0), (c) enumerates every scenario with its demanded outcome, which the harness materialises on disk (FIFOs with driver-side writers, inherited pipes/files for /dev/stdin and /dev/fd/3) and runs through the REAL rare binary (filter and histogram --csv) and the batcher library, comparing rows, exit status, final message, reported errors, summary, ReadErrors() and - while a FIFO input holds its reader slot - the number of inputs the process has open (/proc/<pid>/fd); all observations, seeded random larger trees, and runs with MORE inputs than a lowered RLIMIT_NOFILE whose reader slots are all held by FIFOs, are validated record by record by TLC (Inputs_Trace). Gzip inputs are also MULTI-MEMBER files (cat a.gz b.gz, gzip -c >>: 2-4 members, empty members, lines spanning members; the life cycle decodes member after member, a decompressor that stops after the first member is refuted). The -R walk is also written like filepath.Walk + callback over trees that hold non-regular entries (FIFO, socket, symbolic link to a file / a directory / nothing, device node) before, between and after the regular files and sub-directories: every regular file below the directory is mentioned exactly once whatever the callback does with such entries (law LWalkImpl; a callback answering SkipDir for them is refuted); what the entry itself yields is not judged (rows under its name ignored, at most one read error each, the allowed ends of the run computed by the specification). Inputs larger than any read buffer or probe window have SYMBOLIC contents (InputsBig: optional first line, n fixed-width numbered records, unterminated tail; laws tie the symbolic lines to LinesOf of the bytes and show that a line end falls on / one byte next to every multiple of every window size the record width divides); TLC enumerates a corpus over several powers of two (16 KiB ... 256 KiB, 4 KiB, 32 KiB; files of 2 windows +- records, shifted by 1, w-1, 7 bytes; plain, plain under -z, gzip, multi-member gzip cut next to the window, FIFO, standard input, three inputs at once) with the demanded run-length observation, replayed on the real binary and the batcher library (lines looked at only after the input ended) and validated by InputsBig_Trace. InputsBuf (the byte-level scanner + reader loop + batch channel + worker + consumer of PipelineBuf) shows for every chunking and buffer size within the bounds that the consumer sees exactly LinesOf(input); recycling a full, completely consumed buffer in place is refuted. The reader-slot protocol itself (ReaderSlots.tla: never more than --readers inputs open, every taken slot belongs to exactly one live goroutine, every input handled exactly once, all slots free at the end) is PROVED with TLAPS for any number of inputs and slots.",
     "note": "Bounded: exhaustive within the universe of InputsUniv (7-node skeleton tree, one varied slot incl. FIFO variants, one external input /dev/stdin or /dev/fd/3, 19 argument forms, <=2 arguments); beyond that seeded random trees (<=4 levels, <=60 files, FIFOs, inherited descriptors) and descriptor-limit runs (30-60 inputs, limit readers+16..21). Glob syntax: * and ? and literals only. Without -z nothing is demanded about compressed files; '-' only as the sole argument; -z with '-' not covered. A pipe is mentioned at most once and never reached by a -R walk. Non-regular entries are in the domain only as passers-by of a -R walk (not named by an argument or hit by a glob; a FIFO passed at most once; a symbolic link to a directory points to an empty directory). Big inputs: record widths 64 and 1024, sizes <= 768 KiB; the expectation is symbolic (run-length form of numbered records), the driver's renderer is checked against TLC's bytes for 54 small descriptors. Permission errors are not producible as root. Trusted: filepath.Glob/Walk, compress/gzip, Go regexp, encoding/csv, the OS.",
-    "technique": "TLA+ model checking (TLC): functional oracle + life-cycle state machine with resource bound and refuted broken designs, model-outcome replay on the real binary, trace validation",
+    "technique": "TLA+ model checking (TLC): functional oracle + life-cycle state machine with resource bound and refuted broken designs, model-outcome replay on the real binary, trace validation; TLAPS proof of the reader-slot protocol for unbounded parameters",
 }
 
 LIFE_INV = "SemaOK FdOK ErrsOK LinesOnce MembersOK FinalOK NoStall"
@@ -233,7 +233,8 @@ def check(run):
         lambda: run.tlc("InputsBuf", pbuf % (5, 1, "never", "CompleteOK PrefixOK6"), workers=2, timeout=3000, xmx="3g",
                         label="InputsBuf reuse=never BufSize=1"),
     ])
-    res = parallel([rnd_drv, fd_drv] + broken + gens + extras, 7 if quick else 5)
+    res = parallel([rnd_drv, fd_drv] + broken + gens + extras + [lambda: tlaps(run, "ReaderSlots")], 7 if quick else 5)
+    res = res[:-1]
     for b, r in zip(BROKEN_ALL, res[2:2 + len(BROKEN_ALL)]):
         if not r.violated:
             raise Inconclusive("the model does not refute the broken design '%s': %s" % (b[0], r.out[-1500:]))
